@@ -43,6 +43,9 @@ CHECKS = {
  "C04": ("exploration", "exhaustive enumeration of sign -> single-field mutation -> verify over keys, shapes, positions, 12 hash types and every mutation class, with the reference digest deciding what each hash type commits to",
          "Each input is signed through the library's signing path and verified by the interpreter; every single-field mutation at every position is then applied and the input must verify iff the reference digest is unchanged.",
          "Reference digests internal/ref/sighashref (anchored on the node vectors); ECDSA by go-bk.", "DESIGN.md §4 C04"),
+ "C20": ("exploration", "exhaustive bounded enumeration of the four ordinals flow pairs over keys, prices, funding sets placed around the price/fee thresholds and quotes, each completed transaction checked by the interpreter, a FIFO satoshi-flow reference and the reference fee model; inscription round trips over boundary lengths",
+         "Every scenario of the product space is driven through the real listing/bidding/acceptance functions (the partially signed tx crosses a serialisation boundary); every completed transaction has all inputs executed by the interpreter, the seller output position/bytes, FIFO ordinal routing and the fee checked.",
+         "Interpreter verdicts come from the library itself (its agreement with the reference is C05/C06's concern); FIFO model and fee model are the framework's. Known finding: empty content type / payload do not round-trip through ParseInscription.", "DESIGN.md §4 C20"),
 }
 
 PENDING_REASON = "check not built yet in this round (planned, see DESIGN.md §4); not claimed until its exhaustive check exists and is quiet on the unchanged tree"
